@@ -312,6 +312,9 @@ def main(argv):
     notes["streams"] = stats
     notes["model_disagreements"] = len(corr_breaks)
     notes["known_findings_reproduced"] = sorted(seen_known)
+    more = getattr(mod, "evidence_notes", None)     # per-property facts gathered while judging (e.g. how inputs were classified)
+    if more:
+        notes["property_notes"] = more()
     write_ev(prop, tier, seed, thms, discharged, prop_modules, samples,
              {"evaluations": evaluations, "distinct": len(distinct), "rule": getattr(mod, "RULE", "")},
              notes, t0, 0 if rc == 0 else max(1, len(reported)), proof_problem, extra)
